@@ -37,6 +37,7 @@ func init() {
 		"(*sync.RWMutex).RUnlock": lockOp(false, true),
 		"sync/atomic.AddUint64":   atomicAdd,
 		"sync/atomic.LoadUint64":  atomicLoad,
+		"sync/atomic.StoreUint64": atomicStore,
 		"encoding/json.Unmarshal": jsonUnmarshal,
 		"github.com/enbility/spine-go/model.writeAllowed":                 leafWriteAllowed,
 		"github.com/enbility/spine-go/model.HasIdentifiers":               leafHasIdentifiers,
@@ -73,6 +74,11 @@ func init() {
 					fr.typeCells(pt.Elem(), set)
 				}
 			}
+		},
+		"sync/atomic.StoreUint64": func(fr *Frame, c *ssa.CallCommon, set map[string]bool) {
+			fr.typeCells(types.Typ[types.Uint64], set)
+			set["acq"] = true
+			fr.vc.compSort["acq"] = "(Array Int Int)"
 		},
 		"sync/atomic.LoadUint64": func(fr *Frame, c *ssa.CallCommon, set map[string]bool) {
 			set["acq"] = true
@@ -272,6 +278,14 @@ func jsonUnmarshal(fr *Frame, site ssa.Instruction, fn *ssa.Function, args []*Te
 	e := vc.fresh("r", "Iface")
 	vc.assume(st.guard, vc.ptrFacts(st, fn.Signature.Results().At(0).Type(), e, 0))
 	return []*Term{e}
+}
+
+func atomicStore(fr *Frame, site ssa.Instruction, fn *ssa.Function, args []*Term, st *State) []*Term {
+	vc := fr.vc
+	vc.assumptions["sync/atomic.StoreUint64: linearizable write"] = true
+	vc.storeVal(st, types.Typ[types.Uint64], args[0], args[1])
+	countAtomicOp(vc, st, args[0])
+	return nil
 }
 
 func atomicLoad(fr *Frame, site ssa.Instruction, fn *ssa.Function, args []*Term, st *State) []*Term {
